@@ -894,6 +894,11 @@ def run(an: Analysis, rep):
     rep.run(r117, an, rep)
     rep.run(r119, an, rep)
     rep.run(width_rule, an, rep)
+    from . import c10, c13
+    from .common import SharedRules as _SR
+    rep.run(c10.r106_progress, an, rep, "R11.H")
+    rep.run(c13.r136, an, _SR(rep, "R11.J", "a jump into the middle of an instruction or past the code makes from_code raise (shared with C13's R13.6): otherwise the returned data names a block "
+                                                    "that does not exist and to_code() fails or jumps elsewhere - silently wrong data for a hand-written code object"))
     from .common import SharedRules
     from . import c04
     rep.run(c04.r041, an, SharedRules(rep, "R11.8", "every argument count is stored in the data: the decoded Args determine co_argcount / co_posonlyargcount / co_kwonlyargcount "
